@@ -227,6 +227,24 @@ pub const ONCE_SEEDS: &[(&str, usize)] = &[
     ("local x = std.trace(\"b__\", 1); std.foldl(function(a, i) a + x, std.range(1, 10), 0)", 1),
 ];
 
+/// Results whose parts were partly forced before being embedded: every std.trace sitting in a
+/// position of the manifested result fires exactly once (labels are t1, t2, ...).
+pub const DEEP_TRACE_SEEDS: &[(&str, &[&str])] = &[
+    ("local a = { x: { y: std.trace(\"t1\", 1), z: std.trace(\"t2\", 2) } }; { p: a.x.y, q: a }", &["t1", "t2"]),
+    ("local a = { x: { y: std.trace(\"t1\", 1), z: std.trace(\"t2\", 2) } }; { q: a, p: a.x.y }", &["t1", "t2"]),
+    ("local a = { x: [std.trace(\"t1\", 1), std.trace(\"t2\", 2)] }; { p: a.x[0], q: a }", &["t1", "t2"]),
+    ("local a = [{ y: std.trace(\"t1\", 1), z: std.trace(\"t2\", 2) }]; [a[0].y, a]", &["t1", "t2"]),
+    ("local a = { x: { y: std.trace(\"t1\", 1), z: std.trace(\"t2\", 2) } }; local b = a.x.y; [b, a.x]", &["t1", "t2"]),
+    ("local a = { x: { [k]: std.trace(\"t\" + k, 1) for k in [\"1\", \"2\"] } }; { p: a.x[\"1\"], q: a }", &["t1", "t2"]),
+    ("local a = { x: std.mapWithKey(function(k, v) std.trace(\"t\" + v, v), { m: \"1\", n: \"2\" }) }; { p: a.x.m, q: a }", &["t1", "t2"]),
+    ("local a = { assert self.x.y == 1, x: { y: std.trace(\"t1\", 1), z: std.trace(\"t2\", 2) } }; { q: a }", &["t1", "t2"]),
+    ("local a = { x: { y: std.trace(\"t1\", 1), z: std.trace(\"t2\", 2) } }; local s = std.length(std.objectFields(a.x)); { s: s, q: a }", &["t1", "t2"]),
+    ("local a = { x: { y: std.trace(\"t1\", 1), z: { w: std.trace(\"t2\", 2) } } }; { p: a.x.z, q: a.x.y, r: a }", &["t1", "t2"]),
+    ("local a = { x: { y: std.trace(\"t1\", 1), z: std.trace(\"t2\", 2) } }; { p: a.x == { y: 1, z: 2 }, q: a }", &["t1", "t2"]),
+    ("local a = { x: { y: std.trace(\"t1\", 1), z: std.trace(\"t2\", 2) } }; [std.toString(a.x.y), a + {}]", &["t1", "t1", "t2"]),
+    ("local f(o) = { inner: o }; local a = { y: std.trace(\"t1\", 1), z: std.trace(\"t2\", 2) }; [a.y, f(a), f(a)]", &["t1", "t2"]),
+];
+
 /// Every pair of "users" of one object-level local (or of one outer local captured by the
 /// object): the local must be evaluated once per object value whatever kinds of members use it.
 fn shared_local_programs() -> Vec<(String, usize)> {
@@ -311,6 +329,21 @@ pub fn run(ctx: &Ctx) -> i32 {
         total.states += 1;
         if !r.outcome.is_value() || r.traces.len() != *want {
             total.violation("C04/seed/evaluated-more-than-once", format!("`{src}`: traced part ran {} times (expected {want}), outcome {}", r.traces.len(), r.outcome.short()), json!({"type":"eval","source":src}));
+        }
+    }
+    for (src, want) in DEEP_TRACE_SEEDS {
+        let r = rt::run_fresh(src.as_bytes(), &RunCfg::default());
+        total.evaluations += 1;
+        total.states += 1;
+        let mut got = r.traces.clone();
+        got.sort();
+        let mut w: Vec<String> = want.iter().map(|x| x.to_string()).collect();
+        w.sort();
+        if !r.outcome.is_value() {
+            total.violation("C04/seed-baseline", format!("`{src}`: {}", r.outcome.short()), json!({"type":"eval","source":src}));
+        } else if got != w {
+            let sig = if got.len() < w.len() { "C04/seed/part-of-the-result-not-evaluated-observably" } else { "C04/seed/evaluated-more-than-once" };
+            total.violation(sig, format!("`{src}`: std.trace output {got:?}, expected {w:?} (every traced part of the result exactly once)"), json!({"type":"eval","source":src}));
         }
     }
     let shared = shared_local_programs();
